@@ -11,7 +11,7 @@ from .c03 import solver_postconditions
 from .solver import scan_solver
 from .. import uscan
 
-ROW_CATS = ('row-units', 'add-units', 'convert-from-unit', 'qstr', 'qstr-format', 'sum-mix', 'compare-units', 'from-storage', 'round-then-scale',
+ROW_CATS = ('row-units', 'add-units', 'convert-from-unit', 'qstr', 'qstr-format', 'truncating-division', 'sum-mix', 'compare-units', 'from-storage', 'round-then-scale',
             'to-storage', 'none-arith', 'add-cell')
 SOLVENT_CATS = ('storage-label', 'factory-unit', 'storage-compare')
 
